@@ -169,6 +169,14 @@ pub fn run(ctx: &RunCtx) -> i32 {
         jobs.push((cfg.clone(), 3, if thorough { 10 } else { 8 }, if thorough { TimeDetail::Medium } else { TimeDetail::Coarse }));
         jobs.push((cfg, 4, if thorough { 10 } else { 8 }, TimeDetail::Coarse));
     }
+    // wide: five requests, and deadlines far apart (RTO 3 s: the last deadline is minutes away)
+    for (t, n, depth) in [
+        (Transport::Unreliable { rto_ms: 100, gran_ms: 1, rm: 2, rc: 2 }, 5usize, if thorough { 10 } else { 9 }),
+        (Transport::Unreliable { rto_ms: 3000, gran_ms: 1, rm: 16, rc: 4 }, 4, if thorough { 10 } else { 8 }),
+        (Transport::Unreliable { rto_ms: 70_000, gran_ms: 1, rm: 2, rc: 2 }, 3, 8),
+    ] {
+        jobs.push((Cfg { transport: t, mech: Mech::None, fingerprint: false, max_tx: 10 }, n, depth, TimeDetail::Coarse));
+    }
     let per: Vec<_> = jobs
         .par_iter()
         .map(|(cfg, n, depth, detail)| {
@@ -201,7 +209,7 @@ pub fn run(ctx: &RunCtx) -> i32 {
         rep,
         Finish {
             level: "model_checking",
-            rule: format!("free timer calls: breadth-first exploration to depth {} with 2, 3 and 4 requests started at different instants, timer calls at region representatives (incl. overdue ones), acceptable and auth-failing replies, indications and replies for unknown ids; faithful controller: every run-to-completion with <= {} deviations where the controller keeps one armed timer (replaced by each newer notification, kept across received buffers) and fires it on time / 1 ms early / 1 ms late / half a slot late / beyond all deadlines, with lost, duplicated, late and rejected replies and extra requests. Monitor: after send_request / on_timeout exactly one notification iff a request awaits; it names an awaiting request with the minimal pending deadline (least schedule point or final deadline after its last handling, integer ns) and announces max(0, deadline - now); every request awaiting at a timer call at or after its final deadline is final after it; controller runs end with nothing awaiting", if thorough { 11 } else { 9 }, if thorough { 4 } else { 3 }),
+            rule: format!("free timer calls: breadth-first exploration to depth {} with 2, 3, 4 and 5 requests started at different instants (RTO from 37 ms to 70 s), timer calls at region representatives (incl. overdue ones), acceptable and auth-failing replies, indications and replies for unknown ids; faithful controller: every run-to-completion with <= {} deviations where the controller keeps one armed timer (replaced by each newer notification, kept across received buffers) and fires it on time / 1 ms early / 1 ms late / half a slot late / beyond all deadlines, with lost, duplicated, late and rejected replies and extra requests. Monitor: after send_request / on_timeout exactly one notification iff a request awaits; it names an awaiting request with the minimal pending deadline (least schedule point or final deadline after its last handling, integer ns) and announces max(0, deadline - now); every request awaiting at a timer call at or after its final deadline is final after it; controller runs end with nothing awaiting", if thorough { 11 } else { 9 }, if thorough { 4 } else { 3 }),
             assumptions: vec!["pending deadlines follow C06's schedule arithmetic with the per-transaction RTO read through H1".into()],
             required_symbols: vec!["bfs-configs", "accurate-notification", "overdue-zero", "no-notification-when-idle", "controller-run-terminated", "controller-runs", "tie"],
             min_outcomes: 6,
